@@ -156,6 +156,10 @@ class Model:
 
 
 # ---------------------------------------------------------------- the oracle: C10's statement on real answers
+# layout classes in which the EAGER reader is the one that loses instances (its int ids, its MAX_COMMENT_LENGTH)
+EAGER_LOSES = ("id-above-int-max", "comment-above-8192")
+
+
 def oracle_index(pop, idx, eager, eager_may_differ=False):
     """index lists exactly the ids/keywords the eager reader loads; fwd = mentions; rev = transpose; deps = closure.
     eager_may_differ: the file was rendered in a class that changes what is written (id-above-int-max): there the eager reader is
@@ -251,7 +255,7 @@ def check_file(exe, env, model, workdir, tag, text, off, pop, orders, extra_prob
                          f"opening the file with lazyInstMgr ended rc={rc_i}: {err_i.strip()[-300:]}"))
         return problems
     idx = parse_index(out_i)
-    kind, det = oracle_index(pop, idx, eager, eager_may_differ=(cls == "id-above-int-max"))
+    kind, det = oracle_index(pop, idx, eager, eager_may_differ=(cls in EAGER_LOSES))
     if det and kind is None:
         problems.append(("generator", "eager", det + " FILE: " + text[off:off + 6000]))
         return problems
@@ -259,8 +263,8 @@ def check_file(exe, env, model, workdir, tag, text, off, pop, orders, extra_prob
         problems.append(("property", kind, det))
         if first_only:
             return problems
-    if cls == "id-above-int-max":
-        return problems       # the written ids are not the population's: nothing further to compare against
+    if cls in EAGER_LOSES:
+        return problems       # the eager reader is not the population here: nothing further to compare against
     # model vs implementation: index
     for fld in ("count", "kw", "fwd", "rev", "dep"):
         a, m = idx[fld], midx[fld]
@@ -537,8 +541,9 @@ def run(ctx):
     bpop, lines, k = [], [], 0
     for L in Ls:
         for what in ("str", "cmt", "ws"):
-            if what == "cmt" and L > 8193:
-                continue          # the EAGER reader loses the instance after a comment of 64 KiB (its own buffer; C01/C05 territory)
+            if what == "cmt" and L > 8192:
+                continue          # the EAGER reader gives up on a comment longer than MAX_COMMENT_LENGTH = 8192 and skips the instance
+                                  # (class layout:comment-above-8192, KNOWN_FINDINGS)
             k += 1
             prev = ("ref", k - 1) if k > 1 else ("null",)
             body = ("s" * L) if what == "str" else what
